@@ -815,9 +815,22 @@ class Tracer:
 
     def trace(self, name, params, max_paths=256, pyargs=None, lean_name=None, wrap_stubs=None):
         fdef = _Prep().visit(ast.parse(ast.unparse(self.fdefs[name])).body[0])
-        mod = ast.Module(body=[fdef], type_ignores=[])
+        # module-level helpers that are not traced on their own (a private function split off a traced one by a refactor)
+        # are executed symbolically in place, i.e. inlined: they are prepared exactly like the traced function and defined
+        # in the same namespace; a helper the preparer cannot handle is simply left out (a call to it is then a NameError,
+        # hence a refusal, as before)
+        helpers = []
+        for hn, hd in self.fdefs.items():
+            if hn == name or hn in self.traced or hn in self.extern or hn in getattr(self, 'no_inline', ()):
+                continue
+            try:
+                helpers.append(_Prep().visit(ast.parse(ast.unparse(hd)).body[0]))
+            except Exception:
+                continue
+        mod = ast.Module(body=helpers + [fdef], type_ignores=[])
         ast.fix_missing_locations(mod)
         ns = dict(self.ns)
+        ns.setdefault('logger', type('L', (), {k: staticmethod(lambda *a, **kw: None) for k in ('debug', 'info', 'warning', 'error')})())
         for k, t in self.traced.items():
             ns[k] = self._stub(t)
         class _ModNS:
